@@ -636,3 +636,43 @@ func H_C05_order_ints() {
 	verif.Assert(verif.Eq(ns, want), "sorted-by-exact-integer-value")
 	verif.Reach("end")
 }
+
+// H_C05_order_many: two sort keys with ties on the first, on 13..16 rows
+// (above the size up to which the standard library's sort is an insertion
+// sort): every adjacent pair respects (g ASC, v DESC).
+func H_C05_order_many() {
+	n := 13 + verif.Choose("extra-rows", 4)
+	seed := verif.Choose("seed", 4)
+	arr := make([]any, n)
+	x := uint32(7 + 13*seed)
+	for i := range arr {
+		x = x*1664525 + 1013904223
+		arr[i] = Map{"id": float64(i), "g": float64((x >> 16) % 3), "v": float64((x >> 8) % 5)}
+	}
+	got, ok := runQuery(Map{"t": arr}, "SELECT id, g, v FROM t ORDER BY g, v DESC")
+	if !ok {
+		return
+	}
+	verif.Assert(len(got) == n, "count")
+	seen := make([]bool, n)
+	okPerm, sorted := len(got) == n, true
+	for i, r := range got {
+		m := r.(Map)
+		id := int(f64of(m["id"]))
+		if id < 0 || id >= n || seen[id] || !verif.Eq(m, arr[id]) {
+			okPerm = false
+			break
+		}
+		seen[id] = true
+		if i > 0 {
+			p := got[i-1].(Map)
+			pg, pv, g, v := f64of(p["g"]), f64of(p["v"]), f64of(m["g"]), f64of(m["v"])
+			if g < pg || (g == pg && v > pv) {
+				sorted = false
+			}
+		}
+	}
+	verif.Assert(okPerm, "permutation")
+	verif.Assert(sorted, "sorted")
+	verif.Reach("end")
+}
